@@ -441,3 +441,31 @@ package operator
 //@ func CreateScatterRegionOperator
 //@   assumed
 //@   modifies nothing
+
+// Operator.Check (used by the controller): advances the current step and the status of the operator; the status only
+// moves forward along started -> {success, timeout} (its body - atomics, step timing, IsFinish of every remaining step -
+// is not verified here; the per-step IsFinish contracts are above).
+//@ func (*Operator).Check
+//@   assumed
+//@   ensures [status-only-forward] o.status.current == old(o.status.current) || (old(o.status.current) == 1 && (o.status.current == 2 || o.status.current == 6))
+//@   ensures [a-started-operator-has-a-current-step] o.status.current == 1 ==> result != nil
+//@   modifies o.status.current, o.status.reachTimes, o.currentStep, o.stepsTime[*], ghost evres
+//@ func (*Operator).ConfVerChanged
+//@   assumed
+//@   ensures result == uf("opConfVerChanged", o, region)
+//@   modifies nothing
+//@ func (*Operator).TotalInfluence
+//@   assumed
+//@   modifies nothing
+//@ func (*Operator).GetAdditionalInfo
+//@   assumed
+//@   modifies nothing
+//@ func (*Operator).SchedulerKind
+//@   assumed
+//@   modifies nothing
+
+// The step interface as the controller sees it: CheckSafety is a deterministic judgement of (step, region).
+//@ func (OpStep).CheckSafety
+//@   assumed
+//@   ensures (result == nil) == ufb("stepSafe", self, region)
+//@   modifies nothing
